@@ -88,3 +88,190 @@ def vlm_states(surfaces, stub_kernels=True, rotational=False, upto=None):
         SymComp(A + "panel_forces_surf", "PanelForcesSurf", surfaces=surfaces),
     ]
     return Pipe(comps)
+
+
+# ------------------------------------------------------------------------------------------------ real groups
+class GroupPipe:
+    """Symbolic execution of a *real, set-up* OpenMDAO group: every leaf component under `root` is run in the group's
+    own execution order and fed through the group's own resolved connections (including unit conversion and
+    src_indices), so that the wiring itself is part of what is verified.  Implicit components contribute their
+    residuals; their states are fresh symbols (or given).  IndepVarComp / auto-IVC outputs are the external inputs."""
+
+    def __init__(self, prob, root="", extra=None, skip=()):
+        import openmdao.api as om
+
+        self.prob = prob
+        self.model = prob.model
+        self.extra = extra or {}
+        top = prob.model if not root else prob.model._get_subsystem(root)
+        self.leaves = []
+        for s in top.system_iter(recurse=True, include_self=False):
+            if isinstance(s, (om.ExplicitComponent, om.ImplicitComponent)) and not any(s.pathname.endswith(k) for k in skip):
+                self.leaves.append(s)
+        self.conn = dict(prob.model._conn_global_abs_in2out)
+        self.meta_in = prob.model._var_allprocs_abs2meta["input"]
+        self.meta_out = prob.model._var_allprocs_abs2meta["output"]
+        res = prob.model._resolver
+        self.prom_in = {a: res.abs2prom(a, "input") for a in self.meta_in}
+        self.prom_out = {a: res.abs2prom(a, "output") for a in self.meta_out}
+        self.wrapped = {}
+
+    def encode(self, rep):
+        for s in self.leaves:
+            if type(s).__module__.startswith("openaerostruct"):
+                rep.encode(type(s))
+
+    def _wrap(self, comp):
+        from .model import SymComp
+
+        if comp.pathname not in self.wrapped:
+            ex = None
+            for mod, d in self.extra.items():
+                if type(comp).__module__ == mod:
+                    ex = {mod: d}
+            self.wrapped[comp.pathname] = SymComp.from_instance(comp, self.prob, extra=ex)
+        return self.wrapped[comp.pathname]
+
+    def run(self, external=None, states=None, assumptions=()):
+        """external: promoted name (or absolute source name) -> array, in the *source's* units; missing ones become
+        fresh symbols named by the promoted name.  states: promoted/absolute name of implicit outputs -> array.
+        Returns (values by absolute output name, residuals by absolute name, dict of created external symbols)."""
+        import openmdao.api as om
+
+        external = dict(external or {})
+        states = dict(states or {})
+        vals = {}
+        resid = {}
+        created = {}
+
+        def source_value(src):
+            if src in vals:
+                return vals[src]
+            prom = self.prom_out.get(src, src)
+            shape = tuple(self.meta_out[src]["shape"])
+            for key in (src, prom):
+                if key in external:
+                    vals[src] = np.asarray(external[key], dtype=object).reshape(shape) if np.size(external[key]) == int(np.prod(shape)) else np.broadcast_to(np.asarray(external[key], dtype=object), shape).copy()
+                    return vals[src]
+            return None
+
+        for comp in self.leaves:
+            if isinstance(comp, om.IndepVarComp):
+                for n in comp._var_rel_names["output"]:
+                    absn = comp.pathname + "." + n
+                    if source_value(absn) is None:
+                        prom = self.prom_out.get(absn, absn)
+                        vals[absn] = symarray(prom, tuple(self.meta_out[absn]["shape"]))
+                        created[prom] = vals[absn]
+                continue
+            sc = self._wrap(comp)
+            ins = {}
+            for n in sc.in_names:
+                abs_in = comp.pathname + "." + n
+                src = self.conn.get(abs_in)
+                shape = sc.shape(n)
+                if src is None:
+                    raise RuntimeError("unconnected input %s" % abs_in)
+                sv = source_value(src)
+                if sv is None:
+                    if src.startswith("_auto_ivc."):
+                        prom = self.prom_in.get(abs_in, abs_in)
+                        key = prom if prom in external else None
+                        sshape = tuple(self.meta_out[src]["shape"])
+                        if key:
+                            sv = np.asarray(external[key], dtype=object)
+                            sv = sv.reshape(sshape) if sv.size == int(np.prod(sshape)) else np.broadcast_to(sv, sshape).copy()
+                        else:
+                            sv = symarray(prom, sshape)
+                            created[prom] = sv
+                        vals[src] = sv
+                    else:
+                        raise RuntimeError("source %s of %s has not been computed (cycle or ordering)" % (src, abs_in))
+                a = _conv(sv, self.meta_out[src].get("units"), self.meta_in[abs_in].get("units"))
+                a = np.asarray(a, dtype=object)
+                m_in = self.model._var_abs2meta["input"].get(abs_in, {})
+                si = m_in.get("src_indices")
+                if si is not None:
+                    flat = a.ravel() if m_in.get("flat_src_indices", True) else a
+                    idx = si.shaped_array() if hasattr(si, "shaped_array") else np.asarray(si)
+                    a = flat[idx] if m_in.get("flat_src_indices", True) or a.ndim == 1 else a[idx]
+                if a.shape != shape:
+                    a = a.reshape(shape) if a.size == int(np.prod(shape)) else np.broadcast_to(a, shape).copy()
+                ins[n] = a
+            if isinstance(comp, om.ImplicitComponent):
+                from .harness import VecStore
+                from .npproxy import symbolic_numpy
+
+                outs = {}
+                for n in sc.out_names:
+                    absn = comp.pathname + "." + n
+                    prom = self.prom_out.get(absn, absn)
+                    given = states.get(absn, states.get(prom))
+                    arr = symarray(prom, sc.shape(n)) if given is None else np.asarray(given, dtype=object).reshape(sc.shape(n))
+                    if given is None:
+                        created[prom] = arr
+                    outs[n] = arr
+                    vals[absn] = arr
+                with symbolic_numpy(sc.extra):
+                    R = VecStore({n: np.empty(sc.shape(n), dtype=object) for n in sc.out_names})
+                    saved, _ = sc.runner._swap_sparse_only()
+                    try:
+                        comp.apply_nonlinear(VecStore(ins), VecStore(outs), R)
+                    finally:
+                        sc.runner._restore_attrs(saved)
+                for n in sc.out_names:
+                    resid[comp.pathname + "." + n] = symify(R[n])
+            elif type(comp).__module__.startswith("openmdao"):
+                out = self._affine_probe(comp, sc, ins)
+                for n in sc.out_names:
+                    vals[comp.pathname + "." + n] = out[n]
+            else:
+                out = sc.sym1(ins, assumptions=assumptions)
+                for n in sc.out_names:
+                    vals[comp.pathname + "." + n] = out[n]
+        self.vals, self.resid = vals, resid
+        return vals, resid, created
+
+    def get(self, prom):
+        """value of an output by promoted (or absolute) name"""
+        if prom in self.vals:
+            return self.vals[prom]
+        for absn, p in self.prom_out.items():
+            if p == prom and absn in self.vals:
+                return self.vals[absn]
+        raise KeyError(prom)
+
+    def _affine_probe(self, comp, sc, ins):
+        """OpenMDAO's own affine components (SplineComp, ExecComp sums): outputs = f(0) + sum_j (f(e_j) - f(0)) x_j, with
+        f evaluated by the real compute on concrete vectors (the interpolation matrix is taken as data)."""
+        from .harness import VecStore
+
+        def f(v):
+            I = VecStore({n: np.asarray(v[n], dtype=float).reshape(sc.shape(n)) for n in sc.in_names})
+            O = VecStore({n: np.zeros(sc.shape(n)) for n in sc.out_names})
+            comp.compute(I, O)
+            return {n: np.array(O[n], dtype=float) for n in sc.out_names}
+
+        zero = {n: np.zeros(sc.shape(n)) for n in sc.in_names}
+        f0 = f(zero)
+        out = {n: np.array(f0[n], dtype=object) for n in sc.out_names}
+        from fractions import Fraction
+
+        from .sym import const
+
+        for n in sc.in_names:
+            flat = np.asarray(ins[n], dtype=object).ravel()
+            for j in range(flat.size):
+                e = dict(zero)
+                v = np.zeros(flat.size)
+                v[j] = 1.0
+                e[n] = v.reshape(sc.shape(n))
+                fj = f(e)
+                for o in sc.out_names:
+                    d = fj[o] - f0[o]
+                    nz = np.nonzero(d.ravel())[0]
+                    of = out[o].ravel() if out[o].ndim else out[o].reshape(1)
+                    for k in nz:
+                        of[k] = S(of[k]) + const(Fraction(float(d.ravel()[k]))) * S(flat[j])
+                    out[o] = of.reshape(np.shape(out[o])) if out[o].ndim else of[0]
+        return {n: symify(out[n]) for n in sc.out_names}
